@@ -44,3 +44,54 @@ Definition c15_tokens_ok (c : c15_token_case) : bool := pairs_eqb (fold_right in
 Definition c15_once_ok (c : c15_token_case) : bool :=
   forallb (fun tr => Nat.leb (List.length (filter (fun c2 => Nat.eqb (fst c2) (fst tr)) (snd c))) 1 &&
                      existsb (fun o => match o with TCallback t r => Nat.eqb t (fst tr) && Nat.eqb r (snd tr) | _ => false end) (fst c)) (snd c).
+
+(* ---- the child-launch protocol (Model/Children.v) ---- *)
+From LSF Require Import Children.
+(* (launches observed: launching Task, child, synchronous?; the run: per handler invocation the input it is taken for and its projected effects) *)
+Definition c15_proto_case := (list (task * xid * bool) * list (cinput * list xeffect))%type.
+(* the run is a run of the model, effect by effect *)
+Definition c15_proto_replay_ok (c : c15_proto_case) : bool := Nat.eqb (fst (creplay cinit (snd c) 0)) 0.
+
+(* model independent monitors: they look at the effects only *)
+Definition has_ack (t : task) (e : list xeffect) : bool := existsb (fun x => match x with XAck u => Nat.eqb u t | _ => false end) e.
+Definition has_notify (c : xid) (e : list xeffect) : bool := existsb (fun x => match x with XNotify d _ => Nat.eqb d c | _ => false end) e.
+Definition has_notify_st (c : xid) (ok : bool) (e : list xeffect) : bool :=
+  existsb (fun x => match x with XNotify d o => Nat.eqb d c && Bool.eqb o ok | _ => false end) e.
+Definition has_hist (k : tkind) (e : list xeffect) : bool := existsb (fun x => match x with XHist _ j => tkind_eqb j k | _ => false end) e.
+Fixpoint ack_before_notify (t : task) (c : xid) (e : list xeffect) : bool :=
+  match e with
+  | [] => false
+  | XAck u :: r => if Nat.eqb u t then has_notify c r else ack_before_notify t c r
+  | _ :: r => ack_before_notify t c r
+  end.
+Definition acks_of (e : list xeffect) : list task := flat_map (fun x => match x with XAck u => [u] | _ => [] end) e.
+
+(* a synchronous launch is handed its child's record exactly when the child becomes terminal: not later (the handler invocation
+   that notifies the child terminal also completes the launching Task - by the hand-over, or because the Task's timeout / cancellation
+   is what ended the child - unless that Task has given up before), not earlier and not with another status (a Task that completes with TaskSucceeded / TaskFailed does so in the handler
+   invocation that notifies its child SUCCEEDED / FAILED) *)
+Fixpoint child_mon (launches : list (task * xid * bool)) (acked : list task) (l : list (list xeffect)) : bool :=
+  match l with
+  | [] => true
+  | e :: r =>
+      forallb (fun tcs => let '(t, c, sync) := tcs in
+                 negb sync ||
+                 ((negb (has_notify c e) || mem t acked || has_ack t e)
+                  && (negb (has_ack t e && has_hist KSucceeded e) || has_notify_st c true e)
+                  && (negb (has_ack t e && has_hist KFailed e) || has_notify_st c false e))) launches
+      && child_mon launches (acked ++ acks_of e) r
+  end.
+Definition c15_proto_handover_ok (c : c15_proto_case) : bool := child_mon (fst c) [] (map snd (snd c)).
+
+(* a fire-and-forget launch completes its Task in the handler invocation that publishes the start event *)
+Definition c15_proto_async_ok (c : c15_proto_case) : bool :=
+  forallb (fun tcs => let '(t, ch, sync) := tcs in
+             sync || forallb (fun e => negb (existsb (fun x => match x with XStart d _ => Nat.eqb d ch | _ => false end) e) || has_ack t e) (map snd (snd c))) (fst c).
+
+(* nothing happens twice: one start event per child, one terminal notification per child, one completion per launching Task *)
+Fixpoint nodup_nat (l : list nat) : bool := match l with [] => true | x :: r => negb (mem x r) && nodup_nat r end.
+Definition c15_proto_once_ok (c : c15_proto_case) : bool :=
+  let all := flat_map snd (snd c) in
+  nodup_nat (acks_of all)
+  && nodup_nat (flat_map (fun x => match x with XStart d _ => [d] | _ => [] end) all)
+  && nodup_nat (flat_map (fun x => match x with XNotify d _ => [d] | _ => [] end) all).
